@@ -7,9 +7,9 @@ git diff -- unyt > /tmp/atk/$sid.patch
 [ -s /tmp/atk/$sid.patch ] || { echo "empty patch"; exit 1; }
 s1=$(/venv/bin/python /verif/tools/suite_check.py $w | head -1)
 d1=0; PYTHONPATH=$w /venv/bin/python -W ignore demo.py >/tmp/atk/$sid.demo_patched.log 2>&1 || d1=$?
-git stash -q -- unyt
+git apply -R /tmp/atk/$sid.patch
 d0=0; PYTHONPATH=$w /venv/bin/python -W ignore demo.py >/tmp/atk/$sid.demo_clean.log 2>&1 || d0=$?
-git stash pop -q
+git apply /tmp/atk/$sid.patch
 echo "$sid: $s1 | demo patched rc=$d1 clean rc=$d0"
 case "$s1" in *"not passing: 0"*) ;; *) echo "REJECT: suite"; exit 1;; esac
 [ $d1 -ne 0 ] && [ $d0 -eq 0 ] || { echo "REJECT: demo"; exit 1; }
